@@ -144,8 +144,8 @@ def execute_swap_case(desc):
 
 def draw_network_case(data, tier):
     from hypothesis import strategies as st
-    cfg = P.draw_cfg(data, syms=FSYMS)
-    if not cfg['fermionic'] and not P.chance(data, 1, 6):
+    cfg = P.draw_cfg(data, syms=list(FSYMS) + [x for x in FSYMS if len(C.MODULI[x]) > 1])     # product symmetries twice as often:
+    if not cfg['fermionic'] and not P.chance(data, 1, 6):                                       # charges with several odd components
         cfg['fermionic'] = True
     net = NW.draw_network(data, tier, cfg=cfg, max_tensors=4 if tier == 'quick' else 5, swaps=True)
     net['order'] = None
@@ -313,6 +313,6 @@ def car_execute(desc):
 
 def parts(tier):
     return [HypPart('swap', draw_swap_case, execute_swap_case, {'quick': 3000, 'thorough': 50000}),
-            HypPart('network', draw_network_case, execute_network_case, {'quick': 1200, 'thorough': 20000}),
+            HypPart('network', draw_network_case, execute_network_case, {'quick': 2400, 'thorough': 40000}),
             EnumPart('fkron', fkron_chunks, run_fkron_chunk, execute_fkron),
             EnumPart('car', car_chunks, run_car_chunk, car_execute)]
